@@ -11,6 +11,8 @@ require (
 require (
 	github.com/cilium/ebpf v0.12.3 // indirect
 	github.com/google/uuid v1.6.0 // indirect
+	github.com/vishvananda/netlink v1.3.1 // indirect
+	github.com/vishvananda/netns v0.0.5 // indirect
 	go.uber.org/multierr v1.11.0 // indirect
 	golang.org/x/exp v0.0.0-20250718183923-645b1fa84792 // indirect
 	golang.org/x/sys v0.39.0 // indirect
